@@ -25,4 +25,20 @@ CLAIMS = {
              "positions) and 5 indent settings: printing never raises, is deterministic, output parses, parse(print(t)) == t, print is a fix-point.",
         note="Not a proof: the printer's encoders (json.dumps, str.replace) are outside the VC generator's subset. Known finding: member descriptions "
              "dropped by print_ast (pinned by tests)."),
+    "C18": dict(
+        category="other", engine="rtc",
+        technique="run-time contracts (visitor trace, edit locality, chain order) on enumerated parser-produced documents",
+        text="Bounded stand-in: on every document of the derivation corpus the enter/leave trace is balanced, every non-Name node is entered "
+             "exactly once inside its parent's events and in source order, an identity visitor changes nothing; delete / replace / skip at "
+             "every entered node position change exactly that position; chained visitors enter in order and leave in reverse.",
+        note="Not a proof (higher-order callbacks). Known findings, all pinned by literal event lists in tests/test_lang/test_visitor.py: "
+             "descriptions, type conditions, the Variable of a definition and wrapped types are never visited; three slots out of source "
+             "order; ChainedVisitor loses edits."),
+    "C19": dict(
+        category="other", engine="rtc",
+        technique="run-time contract on MaxDepthValidationRule against a reference depth function over enumerated fragment distributions",
+        text="Bounded stand-in: for field chains of depth 0..4 with every assignment of wrappers (none / inline / typed inline / named spread) "
+             "per level, side branches, @skip at each level under both variable values, multi-operation documents, limits 0..5 and every "
+             "operation filter: the errors name exactly the operations whose reference depth exceeds the limit and nothing is raised.",
+        note="Not a proof (generator pipeline over selected_fields). Reference depth function written from the property statement."),
 }
